@@ -23,6 +23,23 @@ func main() {
 	switch os.Args[1] {
 	case "vc":
 		cmdVC(os.Args[2:])
+	case "pins":
+		// prints the pins of the functions holding argued sources
+		w, err := loadWorld()
+		if err != nil {
+			panic(err)
+		}
+		for _, e := range loadOrdindTable() {
+			if e.Rule == "argued" {
+				for k, fi := range w.Funcs {
+					if shortName(k) == e.Func {
+						fmt.Printf("%s %s\n", e.Func, funcPin(w, fi))
+					}
+				}
+			}
+		}
+	case "sweep":
+		cmdSweep(os.Args[2:])
 	case "sources":
 		cmdSources()
 	case "check":
